@@ -2,5 +2,5 @@ From Coq Require Extraction ExtrOcamlBasic.
 From Common Require Import Words.
 From ServerLoop Require Import ServerLoopSpec ServerLoopModel.
 Extraction Language OCaml.
-Extraction "model.ml" anchor init step steps map_events
+Extraction "model.ml" anchor init step steps map_events sel_view
   tmon0 rmon0 cmon0 imon0 tmon_step rmon_step cmon_step imon_step accepts verdict.
